@@ -15,11 +15,10 @@ import (
 	"sort"
 	"strconv"
 	"strings"
+	"sync"
 
 	zed "github.com/brimdata/super"
-	"github.com/brimdata/super/api"
 	"github.com/brimdata/super/lake"
-	lakeapi "github.com/brimdata/super/lake/api"
 	"github.com/brimdata/super/lake/branches"
 	"github.com/brimdata/super/lake/commits"
 	"github.com/brimdata/super/lake/journal"
@@ -94,6 +93,26 @@ func (sc *StoreScenario) ModelRequest(prop string) string {
 	return b.String()
 }
 
+// StoreOpenLake is lake.Open, retried when it fails or panics for a reason other than the
+// lake not existing.  lake.Root.readLakeMagic reads its first value after the next Read of the
+// same zngio reader, i.e. from a buffer already returned to zngio's pool; with several harness
+// workers in one process another goroutine may have reused that buffer.  (Recorded in
+// /verif/pending; not a C12/C17 matter.)  A garbled read can only fail or panic — the magic
+// string must match — so retrying is sound.
+func StoreOpenLake(e *StoreEngine, client int) (root *lake.Root, err error) {
+	for try := 0; try < 6; try++ {
+		err, _ = Protect(func() error {
+			var err error
+			root, err = lake.Open(context.Background(), e.Client(client), zap.NewNop(), e.Root)
+			return err
+		})
+		if err == nil || errors.Is(err, lake.ErrNotExist) || errors.Is(err, ErrStoreCrashed) {
+			return root, err
+		}
+	}
+	return root, err
+}
+
 func StoreBranchName(k int) string {
 	if k == 0 {
 		return "main"
@@ -131,7 +150,7 @@ type OpRecord struct {
 type StoreRun struct {
 	E        *StoreEngine
 	Ops      [][]StoreOp
-	LK       []lakeapi.Interface
+	Roots    []*lake.Root
 	next     []int
 	cur      []*OpRecord
 	outcome  map[*OpRecord]*opOutcome
@@ -159,11 +178,11 @@ func NewStoreRun(e *StoreEngine, ops [][]StoreOp) (*StoreRun, error) {
 	}
 	r := &StoreRun{E: e, Ops: ops, Pools: map[int]ksuid.KSUID{}, Commits: map[int]ksuid.KSUID{}, Objs: map[int]ksuid.KSUID{}, ObjName: map[string]int{}}
 	for c := range ops {
-		root, err := lake.Open(ctx, e.Client(c), zap.NewNop(), e.Root)
+		root, err := StoreOpenLake(e, c)
 		if err != nil {
 			return nil, err
 		}
-		r.LK = append(r.LK, lakeapi.FromRoot(root))
+		r.Roots = append(r.Roots, root)
 	}
 	r.next = make([]int, len(ops))
 	r.cur = make([]*OpRecord, len(ops))
@@ -177,7 +196,7 @@ func NewStoreRun(e *StoreEngine, ops [][]StoreOp) (*StoreRun, error) {
 func (r *StoreRun) AddClient(ops []StoreOp) (int, error) {
 	c := len(r.Ops)
 	n := r.E.TraceLen()
-	root, err := lake.Open(context.Background(), r.E.Client(c), zap.NewNop(), r.E.Root)
+	root, err := StoreOpenLake(r.E, c)
 	r.E.mu.Lock()
 	r.E.Trace = r.E.Trace[:n]
 	r.E.mu.Unlock()
@@ -185,7 +204,7 @@ func (r *StoreRun) AddClient(ops []StoreOp) (int, error) {
 		return c, err
 	}
 	r.Ops = append(r.Ops, ops)
-	r.LK = append(r.LK, lakeapi.FromRoot(root))
+	r.Roots = append(r.Roots, root)
 	r.next = append(r.next, 0)
 	r.cur = append(r.cur, nil)
 	return c, nil
@@ -224,25 +243,44 @@ func StoreClassifyErr(err error) string {
 // exec runs one API operation on client c's handle (called in the client's goroutine).
 func (r *StoreRun) exec(c int, op StoreOp, pool ksuid.KSUID, parent ksuid.KSUID, objs []ksuid.KSUID) (commit ksuid.KSUID, created ksuid.KSUID, err error) {
 	ctx := context.Background()
-	lk := r.LK[c]
+	root := r.Roots[c]
+	// The calls below are the bodies of lake/api/local.go's methods (lakeapi.FromRoot is
+	// avoided only because it builds a compiler with an S3 client per handle).
+	lookupBranch := func() (*lake.Branch, error) {
+		p, err := root.OpenPool(ctx, pool)
+		if err != nil {
+			return nil, err
+		}
+		return p.OpenBranchByName(ctx, StoreBranchName(op.Branch))
+	}
 	switch op.Kind {
 	case "createPool":
 		sk, _ := order.ParseSortKeys("k:asc")
-		created, err = lk.CreatePool(ctx, StorePoolName(op.Name), sk, 0, 0)
+		var p *lake.Pool
+		p, err = root.CreatePool(ctx, StorePoolName(op.Name), sk, 0, 0)
+		if err == nil {
+			created = p.ID
+		}
 	case "renamePool":
-		err = lk.RenamePool(ctx, pool, StorePoolName(op.Name))
+		err = root.RenamePool(ctx, pool, StorePoolName(op.Name))
 	case "removePool":
-		err = lk.RemovePool(ctx, pool)
+		err = root.RemovePool(ctx, pool)
 	case "createBranch":
-		err = lk.CreateBranch(ctx, pool, StoreBranchName(op.Name), parent)
+		_, err = root.CreateBranch(ctx, pool, StoreBranchName(op.Name), parent)
 	case "removeBranch":
-		err = lk.RemoveBranch(ctx, pool, StoreBranchName(op.Name))
+		err = root.RemoveBranch(ctx, pool, StoreBranchName(op.Name))
 	case "load":
-		zctx := zed.NewContext()
-		rd := zsonio.NewReader(zctx, strings.NewReader(fmt.Sprintf("{k:%d}", op.Obj)))
-		commit, err = lk.Load(ctx, zctx, pool, StoreBranchName(op.Branch), rd, api.CommitMessage{Author: "verif", Body: "load"})
+		var b *lake.Branch
+		if b, err = lookupBranch(); err == nil {
+			zctx := zed.NewContext()
+			rd := zsonio.NewReader(zctx, strings.NewReader(fmt.Sprintf("{k:%d}", op.Obj)))
+			commit, err = b.Load(ctx, zctx, rd, "verif", "load", "")
+		}
 	case "delete":
-		commit, err = lk.Delete(ctx, pool, StoreBranchName(op.Branch), objs, api.CommitMessage{Author: "verif", Body: "delete"})
+		var b *lake.Branch
+		if b, err = lookupBranch(); err == nil {
+			commit, err = b.Delete(ctx, objs, "verif", "delete")
+		}
 	default:
 		err = fmt.Errorf("bad op %s", op.Kind)
 	}
@@ -397,11 +435,14 @@ func (r *StoreRun) Finished(c int) bool {
 // Enabled: a grant to c would perform a storage operation or start an operation.
 func (r *StoreRun) Enabled(c int) bool { return !r.Finished(c) }
 
+// Append adds operations to client c's list.
+func (r *StoreRun) Append(c int, ops ...StoreOp) { r.Ops[c] = append(r.Ops[c], ops...) }
+
 // RunSequential runs all remaining operations of client c to completion without the
 // scheduler (plain calls; used by C17 and for setup).  Stops at the first operation that
 // hits the armed crash point.
 func (r *StoreRun) RunSequential(c int) {
-	for r.next[c] < len(r.Ops[c]) {
+	for r.next[c] < len(r.Ops[c]) && !r.E.Crashed(c) {
 		out, ok := r.begin(c, false)
 		if !ok {
 			continue
@@ -452,15 +493,36 @@ func storeRelClass(rel string) (cls string, journalOf string) {
 	return "?" + rel, ""
 }
 
+var storeDecodeCache = map[string]string{}
+var storeCacheMu sync.Mutex
+
 // DecodeJournalEntry renders the actions of one serialized journal entry.
 func DecodeJournalEntry(b []byte, poolsJournal bool) string {
+	k := fmt.Sprintf("%v|%s", poolsJournal, b)
+	storeCacheMu.Lock()
+	v, ok := storeDecodeCache[k]
+	storeCacheMu.Unlock()
+	if ok {
+		return v
+	}
+	v = decodeJournalEntry(b, poolsJournal)
+	storeCacheMu.Lock()
+	if len(storeDecodeCache) > 100000 {
+		storeDecodeCache = map[string]string{}
+	}
+	storeDecodeCache[k] = v
+	storeCacheMu.Unlock()
+	return v
+}
+
+func decodeJournalEntry(b []byte, poolsJournal bool) string {
 	u := zson.NewZNGUnmarshaler()
 	if poolsJournal {
 		u.Bind(journal.Add{}, journal.Delete{}, journal.Update{}, pools.Config{})
 	} else {
 		u.Bind(journal.Add{}, journal.Delete{}, journal.Update{}, branches.Config{})
 	}
-	zr := zngio.NewReader(zed.NewContext(), bytes.NewReader(b))
+	zr := zngio.NewReaderWithOpts(zed.NewContext(), bytes.NewReader(b), zngio.ReaderOpts{Size: 4096, Threads: 1})
 	defer zr.Close()
 	var acts []string
 	kv := func(e journal.Entry) string {
@@ -502,7 +564,32 @@ func DecodeJournalEntry(b []byte, poolsJournal bool) string {
 }
 
 // DecodeCommitObject returns parent, added and deleted data-object ids.
+type storeCommitDec struct {
+	parent     string
+	adds, dels []string
+	err        error
+}
+
+var storeCommitCache = map[string]*storeCommitDec{}
+
 func DecodeCommitObject(b []byte) (parent string, adds, dels []string, err error) {
+	storeCacheMu.Lock()
+	d, ok := storeCommitCache[string(b)]
+	storeCacheMu.Unlock()
+	if ok {
+		return d.parent, d.adds, d.dels, d.err
+	}
+	parent, adds, dels, err = decodeCommitObject(b)
+	storeCacheMu.Lock()
+	if len(storeCommitCache) > 100000 {
+		storeCommitCache = map[string]*storeCommitDec{}
+	}
+	storeCommitCache[string(b)] = &storeCommitDec{parent, adds, dels, err}
+	storeCacheMu.Unlock()
+	return
+}
+
+func decodeCommitObject(b []byte) (parent string, adds, dels []string, err error) {
 	o, err := commits.DecodeObject(bytes.NewReader(b))
 	if err != nil {
 		return "", nil, nil, err
@@ -537,7 +624,7 @@ func decodeJournalSnap(b []byte, poolsJournal bool) string {
 	} else {
 		u.Bind(journal.Add{}, journal.Delete{}, journal.Update{}, branches.Config{})
 	}
-	zr := zngio.NewReader(zed.NewContext(), bytes.NewReader(b))
+	zr := zngio.NewReaderWithOpts(zed.NewContext(), bytes.NewReader(b), zngio.ReaderOpts{Size: 4096, Threads: 1})
 	defer zr.Close()
 	val, err := zr.Read()
 	if err != nil || val == nil {
@@ -645,8 +732,8 @@ func (r *StoreRun) SchedFromTrace() []int {
 func (r *StoreRun) RenderResults() []string {
 	var out []string
 	for _, h := range r.History {
-		if h.Res == "" {
-			continue
+		if h.Res == "" || h.Res == "unresolved" {
+			continue // unfinished; or never issued (no storage operation, so no schedule entry)
 		}
 		out = append(out, fmt.Sprintf("r %d %d %s", h.Client, h.Idx, h.Res))
 	}
@@ -687,9 +774,10 @@ func (r *StoreRun) Observe() (ps []StorePoolState, err error) {
 		e.mu.Unlock()
 	}()
 	e.ResetOps(storeObserver)
+	e.SetReadOnly(storeObserver, true)
 	ctx := context.Background()
 	perr, _ := Protect(func() error {
-		root, err := lake.Open(ctx, e.Client(storeObserver), zap.NewNop(), e.Root)
+		root, err := StoreOpenLake(e, storeObserver)
 		if err != nil {
 			return err
 		}
@@ -951,3 +1039,31 @@ func (r *StoreRun) CompareWithModel(m *Model, prop string) (diff string, req str
 	model := NormalizeStoreIDs(mo.Trace, mo.Results, mo.Final)
 	return DiffStoreSections(names, real, model), req
 }
+
+// NextIdx is the index of client c's next operation to start; InFlight reports whether an
+// operation of c has started and not yet returned.
+func (r *StoreRun) NextIdx(c int) int   { return r.next[c] }
+func (r *StoreRun) InFlight(c int) bool { return r.cur[c] != nil }
+
+// StoreOpCommutes: reads of immutable journal files (entries, TAIL) commute with every other
+// operation, so delaying them is not a distinct interleaving.
+func StoreOpCommutes(op, rel string) bool {
+	if op != "get" {
+		return false
+	}
+	parts := strings.Split(rel, "/")
+	last := parts[len(parts)-1]
+	if last == "HEAD" || last == "snap.zng" || last == "lake.zng" {
+		return false
+	}
+	return true
+}
+
+// NextCommutes reports whether client c is blocked at an operation that commutes with all
+// others (see StoreOpCommutes).
+func (r *StoreRun) NextCommutes(c int) bool {
+	op, path, blocked := r.E.Pending(c)
+	return blocked && StoreOpCommutes(op, path)
+}
+
+func ParseKSUID(s string) (ksuid.KSUID, error) { return ksuid.Parse(s) }
